@@ -694,8 +694,10 @@ def _evo_combos(configs, tier, seed, n):
     for j, sp in enumerate(spaces):
       pats = _patterns(n, tier, seed, f'{algo_expr}-{sp}')
       if tier == 'quick':
-        want = {_IN_ORDER[(ci + j + seed) % len(_IN_ORDER)], 'holes3',
-                _OUT_OF_ORDER[(ci + j + seed) % len(_OUT_OF_ORDER)]}
+        want = {_IN_ORDER[(ci + j + seed) % len(_IN_ORDER)], 'holes3'}
+        if 'init-dedup' not in kind:
+          # (The order of the feedbacks is of no concern to an initializer.)
+          want.add(_OUT_OF_ORDER[(ci + j + seed) % len(_OUT_OF_ORDER)])
         if not multi:
           want.add(f'refused{(ci + j + seed) % 2}')
       else:
@@ -1169,7 +1171,7 @@ def drv_recover_from_trials(tier, seed):
              'crash after EVERY event; trials through pg JSON; history = (trial.dna, '
              'trial.get_reward_for_feedback(metrics)); compares counts, population+fitness, dedup '
              f'memory, the next {m} proposals of the deterministic generators'
-             + ('; quick: 1 space x 2 patterns per algorithm, rotated by seed' if quick else '')))
+             + ('; quick: 1 space x 2 patterns (generators without feedback: 1) per algorithm, rotated by seed' if quick else '')))
   for ci, (kind, algo_expr, metrics, det, spaces) in enumerate(_trial_configs(tier, seed)):
     if quick:
       spaces = [spaces[(seed + ci) % len(spaces)]]
@@ -1177,7 +1179,7 @@ def drv_recover_from_trials(tier, seed):
       space_expr = SPACES[sp]
       pats = _trial_patterns(n)
       if quick:
-        pats = _rot(pats, ci + j + seed, 2)
+        pats = _rot(pats, ci + j + seed, 1 if det else 2)
       r = rng(seed, f'c15-trials-{algo_expr}-{sp}')
       rewards = _rewards(n + 1, len(metrics) > 1, r)
       args = [_measurement_args(metrics, x) for x in rewards]
